@@ -1,4 +1,55 @@
-import ErgoModel.Exec
+/-
+  C12 — State is a total function of the log; reads are pure; history only grows.
+  In Lean every model function is total and deterministic by construction; what is *proved* here is (1) independence of
+  the order in which Go iterates its maps, (2) that every failure of the log reader is one of two classified errors and
+  the reported line number names a physical line that does not parse, (3) that appends and plan extend the recorded
+  history.  Absence of Go panics and hangs is observed by the check, not proved (see DESIGN.md).
+-/
+import ErgoProofs.Lemmas.ReachInv
+import ErgoProofs.Lemmas.Ready
+import ErgoProofs.Lemmas.StorageThm
+import ErgoProofs.Lemmas.PlanShape
 namespace Ergo
-theorem C12_placeholder : True := trivial
+
+/-- claim order, prune set and compaction output do not depend on map iteration order (any permutation of the item and
+    edge collections gives the same answer) -/
+theorem C12_deterministic_queries (g g' : Graph) (hwf : WF g) (ht : g.tasks.Perm g'.tasks) (hd : g.deps.Perm g'.deps) (epic : Id) :
+    readyTasks g epic = readyTasks g' epic ∧ pruneTargets g = pruneTargets g' ∧ compactEvents g = compactEvents g' :=
+  ⟨readyTasks_perm g g' hwf ht hd epic, pruneTargets_perm g g' hwf ht, compactEvents_perm g g' hwf ht hd⟩
+
+/-- the reader is total with two classified errors; "invalid JSON" names a 1-based physical line that indeed does not parse -/
+theorem C12_reader_total_and_line_number {classify : Storage.Bytes → Storage.LineClass} {limit : Nat} (f : Storage.Bytes) :
+    (∃ es, Storage.readEvents classify limit f = .ok es) ∨
+    (∃ n, Storage.readEvents classify limit f = .error (.badLine n) ∧ 1 ≤ n ∧
+          ∃ l, (Storage.scanLines f)[n - 1]? = some l ∧ classify l = .bad) ∨
+    (Storage.readEvents classify limit f = .error .tooLong ∧ ∃ l ∈ Storage.scanLines f, l.length ≥ limit) := by
+  cases h : Storage.readEvents classify limit f with
+  | ok es => exact Or.inl ⟨es, rfl⟩
+  | error e =>
+    cases e with
+    | badLine n => exact Or.inr (Or.inl ⟨n, rfl, Storage.badLine_names_bad_line f n h⟩)
+    | tooLong => exact Or.inr (Or.inr ⟨rfl, Storage.tooLong_has_long_line f h⟩)
+
+/-- replay is total on every event list: a graph or one of three classified errors (no other outcome exists) -/
+theorem C12_replay_total (evs : List Event) :
+    (∃ g, replay evs = .ok g) ∨ replay evs = .error .badData ∨ replay evs = .error .badTime ∨ ∃ i, replay evs = .error (.duplicate i) := by
+  cases h : replay evs with
+  | ok g => exact Or.inl ⟨g, rfl⟩
+  | error e => cases e with
+    | badData => exact Or.inr (Or.inl rfl)
+    | badTime => exact Or.inr (Or.inr (Or.inl rfl))
+    | duplicate i => exact Or.inr (Or.inr (Or.inr ⟨i, rfl⟩))
+
+/-- every mutation other than compact only extends the recorded history (byte level: appends) … -/
+theorem C12_append_extends {classify : Storage.Bytes → Storage.LineClass} {encode : Event → Storage.Bytes} {limit : Nat}
+    (hc : Storage.Codec classify encode) (f : Storage.Bytes) (es evs : List Event)
+    (hr : Storage.readEvents classify limit f = .ok es) (hs : Storage.Short encode limit evs) :
+    Storage.readEvents classify limit (Storage.appendFile classify encode f evs) = .ok (es ++ evs) :=
+  (Storage.appendFile_reads hc f es evs hr hs).1
+
+/-- read-only commands have no lock section at all in the model: they cannot write (T1/T3 check the same of the code) -/
+theorem C12_failed_or_readonly_writes_nothing (log : List Event) (env : Env) (req : Request)
+    (h : (runCmd log env req).write = none) : (runCmd log env req).log = log :=
+  runCmd_nowrite_unchanged log env req h
+
 end Ergo
